@@ -31,6 +31,7 @@ class Checker:
         ]
         self.assumptions = []
         self.stats = {}
+        self.cfg = None   # build configuration of /repo being analysed when it is not `default` (thorough tier)
 
     # ---- recording -----------------------------------------------------------------------------
     def rule(self, rid, text):
@@ -46,7 +47,7 @@ class Checker:
 
     def ob(self, rule, instance, ok, what, loc=None, detail=None):
         """Record one obligation. key = <prop>/<rule>/<instance> (no line numbers)."""
-        key = f"{self.prop}/{rule}/{instance}"
+        key = f"{self.prop}/{rule}/{instance}" + (f"@{self.cfg}" if getattr(self, "cfg", None) else "")
         self.obligations.append({"key": key, "ok": bool(ok), "rule": rule, "what": what,
                                  "loc": loc, "detail": detail})
         return bool(ok)
